@@ -331,6 +331,10 @@ def _eq_checks(w, g, t, cls, tag, s, also_hash):
         if h1 != h2:
             w.report({"C03"}, f"twin:{tag}|hash-differs|{cls}", f"{h1} {h2}")
             return False
+        st3, h3 = _call(w, hash, g)
+        if st3 != "ok" or h3 != h1:
+            w.report({"C03"}, f"twin:{tag}|hash-unstable|{cls}", f"{h1} {h3}")
+            return False
         st, val = _call(w, lambda: (t in {g}) and (g in {t: 1}))
         if st != "ok" or val is not True:
             w.report({"C03"}, f"twin:{tag}|set-membership|{cls}", repr(val))
@@ -684,8 +688,23 @@ def probe_enant(w, op):
         w.report({"C06"}, f"enantiomer|result|{','.join(sorted(set(d) | set(problems)))}|{cls}", "")
         return
     exp = brute.full_equal(m, em)
+    if exp is None:
+        w.stats["probe_skipped:oracle-budget"] += 1
+        return
     w.stats[f"enant:expected-{exp}"] += 1
-    for name, fn in (("g==e", lambda: sl.real == e), ("e==g", lambda: e == sl.real)):
+    # asked twice, the second time on a freshly derived enantiomer: the answer
+    # must not depend on what has been compared before
+    st, e2 = _call(w, lambda: sl.real.enantiomer())
+    checks = [("g==e", lambda: sl.real == e), ("e==g", lambda: e == sl.real)]
+    if st == "ok":
+        checks += [("g==e'", lambda: sl.real == e2), ("e'==g", lambda: e2 == sl.real), ("e==e'", lambda: (e == e2) == True or "ne")]
+    for name, fn in checks:
+        if name == "e==e'":
+            st, val = _call(w, lambda: e == e2)
+            if st != "ok" or val is not True:
+                w.report({"C06"}, f"enantiomer|two-enantiomers-of-one-graph-unequal|{cls}", repr(val))
+                return
+            continue
         st, val = _call(w, fn)
         if st != "ok":
             w.report({"C06"}, f"enantiomer|{name}|{st}{':' + type(val).__name__ if st == 'exc' else ''}|{cls}", repr(val))
@@ -848,10 +867,16 @@ def enum_open(w, op):
     gs = Slot("gen")
     gs.data.update(inputs=[op["g1"], op["g2"]], yielded=[], kind="enum", stereo=stereo,
                    changes=changes, labels=lab, done=False, m1=m1.clone(), m2=m2.clone())
+    orc = _enum_oracle(gs)
+    if orc is None or len(orc) > 1500:
+        # astronomically symmetric (e.g. ten unbonded atoms of one element):
+        # the oracle abstains, nothing is opened
+        w.stats["probe_skipped:oracle-budget"] += 1
+        return
+    gs.data["oracle"] = orc
+    gs.data["n_oracle"] = len(orc)
     a.locks += 1
     b.locks += 1
-    if not w.real_enabled:
-        gs.data["n_oracle"] = len(_enum_oracle(gs))
     if w.real_enabled:
         R = w.R
         kw = dict(stereo=stereo, stereo_change=changes)
@@ -865,12 +890,14 @@ def enum_open(w, op):
 
 def _enum_oracle(gs):
     d = gs.data
+    if "oracle" in d:
+        return d["oracle"]
     m1, m2 = d["m1"], d["m2"]
     lab = d["labels"]
     labels = None
     if lab is not None:
         labels = (_labels_for(m1, lab, 0), _labels_for(m2, lab, 0))
-    return brute.isomorphisms(m1, m2, labels=labels, stereo=d["stereo"], changes=d["changes"])
+    return brute.all_isomorphisms(m1, m2, labels=labels, stereo=d["stereo"], changes=d["changes"])
 
 
 def _fz(mapping):
@@ -883,7 +910,11 @@ def _enum_tag(d):
 
 def _enum_check_prefix(w, gs, final):
     d = gs.data
-    oracle = {_fz(x) for x in _enum_oracle(gs)}
+    orc = _enum_oracle(gs)
+    if orc is None:
+        w.stats["probe_skipped:oracle-budget"] += 1
+        return True
+    oracle = {_fz(x) for x in orc}
     got = [_fz(x) for x in d["yielded"]]
     cls = d.get("cls", "")
     tag = _enum_tag(d)
@@ -1041,7 +1072,11 @@ def symnum(w, op):
         return
     if not w.real_enabled:
         return
-    exp = len(brute.isomorphisms(m, m, stereo=True))
+    autos = brute.all_isomorphisms(m, m, stereo=True)
+    if autos is None:
+        w.stats["probe_skipped:oracle-budget"] += 1
+        return
+    exp = len(autos)
     st, val = _call(w, w.R.EXP.topological_symmetry_number, sl.real)
     cls = _cls(sl)
     if st != "ok":
@@ -1107,7 +1142,7 @@ def single_unit(m: RefGraph):
                 getattr(g, w_)[k] = _other_isomer(d)
             else:
                 getattr(g, w_)[k] = geom.invert(d)
-            if not brute.full_equal(m, g):
+            if brute.full_equal(m, g) is not True:
                 return None
     return where, key
 
